@@ -405,7 +405,7 @@ func (g *gen) orRule(n *Node, v int) *Rule {
 		if k == "obj" || k == "arr" {
 			add(Alt{Name: kindName[k]}, kindName[k])
 		} else {
-			add(Alt{Rules: []*Rule{g.enumRule(n.Val, false)}}, "set-enum")
+			add(Alt{Rules: []*Rule{g.enumRule(n.Val, true)}}, "set-enum")
 		}
 	}
 	// other alternatives
@@ -443,11 +443,31 @@ func (g *gen) orRule(n *Node, v int) *Rule {
 			add(Alt{Rules: g.shuffle(rs)}, "set-string")
 		case 5:
 			l, _ := g.scalar([]string{"i", "s", "b"}[r.Intn(3)])
-			add(Alt{Rules: []*Rule{g.enumRule(l, false)}}, "set-enum")
+			add(Alt{Rules: []*Rule{g.enumRule(l, true)}}, "set-enum")
 		}
 	}
 	if len(alts) < 2 {
 		add(Alt{Name: "uuid"}, "uuid")
+	}
+	// An alternative may be written more than once, in the same or in the other spelling of the same type
+	// ("@t" / {type: "@t"}, "integer" / {type: "integer"}); a rule-set is repeated verbatim. The AST lists the
+	// items exactly as written, so every occurrence must come back, in place.
+	if r.Intn(3) == 0 {
+		for k := 1 + r.Intn(2); k > 0; k-- {
+			a := alts[r.Intn(len(alts))]
+			switch {
+			case a.Rules == nil && r.Intn(2) == 0:
+				a = Alt{Rules: []*Rule{lr("type", slit(a.Name))}}
+				g.stat("or_repeat_respelled")
+			case len(a.Rules) == 1 && a.Rules[0].Name == "type" && r.Intn(2) == 0:
+				a = Alt{Name: a.Rules[0].Val.Dec}
+				g.stat("or_repeat_respelled")
+			default:
+				g.stat("or_repeat_verbatim")
+			}
+			alts = append(alts, a)
+		}
+		g.stat("rule_or_with_repeat")
 	}
 	r.Shuffle(len(alts), func(i, j int) { alts[i], alts[j] = alts[j], alts[i] })
 	g.stat("rule_or")
@@ -669,6 +689,22 @@ func (g *gen) node(depth int, inObj bool) *Node {
 		}
 		for i := 0; i < cnt; i++ {
 			n.Names = append(n.Names, userTypes[perm[i]][0])
+		}
+		// a name may be written more than once (`@a | @b | @a`, `@a | @a`): drawn with replacement from few names
+		if r.Intn(4) == 0 {
+			cnt = 2 + r.Intn(3)
+			pool := 1 + r.Intn(2)
+			n.Names = n.Names[:0]
+			seen, rep := map[string]bool{}, false
+			for i := 0; i < cnt; i++ {
+				nm := userTypes[perm[r.Intn(pool)]][0]
+				rep = rep || seen[nm]
+				seen[nm] = true
+				n.Names = append(n.Names, nm)
+			}
+			if rep {
+				g.stat("ref_with_repeat")
+			}
 		}
 		n.Sep = []string{" | ", "|", "  |  ", " |", "| ", "\t|\t"}[r.Intn(6)]
 		n.Rules = g.shuffle(g.common(nil, inObj, false))
